@@ -34,7 +34,7 @@ const OBSERVED: [(&str, &[&str]); 6] = [
 ];
 
 /// pool of other files: (id, text, key registered, kind)
-const POOL: [(&str, &str, &str, &str); 22] = [
+const POOL: [(&str, &str, &str, &str); 26] = [
     ("b-itf-1", "package p; interface B { }", "p.B", "interface"),
     ("b-itf-2", "package p; import o.Obs; interface B { void x(in Obs o); const int K = 1; }", "p.B", "interface"),
     ("b-par-1", "package p; parcelable B { }", "p.B", "parcelable"),
@@ -56,6 +56,12 @@ const POOL: [(&str, &str, &str, &str); 22] = [
     ("b-par-recovered-error", "package p; parcelable B { int ; int x = ; String s; }", "p.B", "parcelable"),
     ("imports-thing", "package w2; import zz.Thing; import zz.Other; import x.B; parcelable W2 { Thing t; Other o; B b; }", "w2.W2", "parcelable"),
     ("declares-qualified", "package v2; @A() parcelable r . D; parcelable zz.Other; parcelable p.B; parcelable q.C; interface V2 { }", "v2.V2", "interface"),
+    // data values: keys that differ from an imported key in letter case only; imported items
+    // whose documentation carries tags
+    ("b-lowercase", "package p; parcelable b { }", "p.b", "parcelable"),
+    ("b-upper-package", "package P; interface B { }", "P.B", "interface"),
+    ("b-par-deprecated", "package p; /** Old.\n * @deprecated use q.C\n * @hide\n */ parcelable B { /** @deprecated */ int x; }", "p.B", "parcelable"),
+    ("c-deprecated", "package q; /** @deprecated */ interface C { /** @deprecated */ void f(); }", "q.C", "interface"),
     ("declares-thing", "package v; parcelable Thing; parcelable Other; parcelable B; interface V { void f(in Thing t, in Other o, in B b); }", "v.V", "interface"),
 ];
 
